@@ -188,3 +188,19 @@ package ir
 //@   purefn rm
 //@   traverse remap mode ExpressionHandle rm($)
 //@   nopanic
+//
+// ---- statement-tree walkers visit every nested block (C13) ------------------------------
+//
+// A pass that walks the statement tree must descend into every nested block of
+// every statement kind (if/else, switch cases, loop body AND continuing, plain
+// blocks). The obligation is derived from the field types of the statement
+// kinds: for the element handled by one iteration, every field of type Block is
+// passed to the recursive call. (The recursive call is modelled as "records its
+// block argument"; its other effects are not part of this obligation.)
+//
+//@ func traceStatementsForRefs
+//@   mode bv
+//@   tags C13
+//@   ghostcall traceStatementsForRefs visitedBlock
+//@   traverse stepmark 1 stmts Block visitedBlock($)
+//@   loop 2 invariant [cases] forall j int :: 0 <= j && j <= rangeindex ==> visitedBlock(s.Cases[j].Body)
